@@ -289,6 +289,43 @@ def run_check(pid, tier, parts, fam=FAM, trace=TRACE, assumptions=ASSUME, floors
 
 # ---- C12 --------------------------------------------------------------------------------------
 
+def c12_floors(conc, files):
+    """Sub-space accounting: port cells of the origin clause (every cell hit) and quoted-string extension offers."""
+    cells = port_cells(conc)
+    missing = [k for k in PORT_CELLS if cells[k] == 0]
+    if missing:
+        raise core.Infra("coverage floor missed: no same-host request in port cells %s" % missing)
+    quoted = qpair = pmd_in_quotes = 0
+    for c in conc:
+        ext = [text(x) for x in c["p"]["req"]["ext"]]
+        if any('"' in e for e in ext):
+            quoted += 1
+            if any("\\" in e for e in ext):
+                qpair += 1
+            if any(in_quotes(e, "permessage-deflate") for e in ext):
+                pmd_in_quotes += 1
+    if qpair == 0 or pmd_in_quotes == 0:
+        raise core.Infra("coverage floor missed: quoted-pair offers=%d, permessage-deflate inside quotes=%d" % (qpair, pmd_in_quotes))
+    return dict(port_cells_same_host=dict(cells), ext_offers_with_quoted_string=quoted, ext_offers_with_quoted_pair=qpair,
+                ext_offers_with_pmd_text_inside_quotes=pmd_in_quotes)
+
+
+def in_quotes(line, needle):
+    """Does `needle` occur inside a quoted-string of the header line (RFC 7230 scan; accounting only)?"""
+    i, n = 0, len(line)
+    while i < n:
+        if line[i] == '"':
+            j = i + 1
+            while j < n and line[j] != '"':
+                j += 2 if line[j] == "\\" else 1
+            if needle in line[i + 1:j]:
+                return True
+            i = j + 1
+        else:
+            i += 1
+    return False
+
+
 def c12(tier):
     q = tier == "quick"
     sfx = "quick" if q else "thorough"
@@ -297,11 +334,16 @@ def c12(tier):
              conc=lambda progs, seed: concretise(progs, "C12c", tier, seed, 3 if q else 1)),
         dict(mc=("MC_C12.tla", "MC_C12_nego_%s.cfg" % sfx),
              conc=lambda progs, seed: concretise(progs, "C12n", tier, seed + 1, 1)),
+        dict(mc=("MC_C12.tla", "MC_C12_ext_%s.cfg" % sfx),
+             conc=lambda progs, seed: concretise(progs, "C12x", tier, seed + 2, 1)),
     ]
-    rc, _ = run_check("C12", tier, parts,
+    rc, _ = run_check("C12", tier, parts, floors=c12_floors,
                       rule="abstract programs = initial states of MC_C12 (core: method x Connection x Upgrade x Version x Key x "
                            "(CheckOrigin, Origin) x app extension header; nego: offers x Subprotocols x responseHeader x extension "
-                           "offers x EnableCompression); every program is one complete Upgrade call (non-trivial); distinct by "
+                           "offers x EnableCompression; ext: quoted-string parameter values with quoted-pairs, commas, semicolons, '=' and the "
+                           "text permessage-deflate inside the quotes x element frames x one/two header lines x EnableCompression; core "
+                           "also: Host port {none,:80,:443,:8080} x Origin scheme {http,https,ws,wss} x Origin port {none,80,443,8080} on "
+                           "the same host name, alone and with one other deviation); every program is one complete Upgrade call (non-trivial); distinct by "
                            "abstract program; concretised with random case/OWS/extra tokens/line splitting, keys, buffer sizes, "
                            "pool, HandshakeTimeout, custom Error func")
     return rc
@@ -551,6 +593,9 @@ def conc_c15(progs, tier, seed, mult):
                     q["n"] = rnd.choice(MSG_SIZES + [0])
                 elif st["op"] == "feed":
                     q["n"] = rnd.choice(MSG_SIZES)
+                elif st["op"] == "wr":
+                    # mostly writes that stay inside the 4096-byte write buffer (the first frame is flushed by Close)
+                    q["n"] = rnd.choice([1, 17, 300, 300, 2000, 5000, 70000])
                 steps.append(q)
             out.append(dict(id="C15-%s-%d-%d" % (tier[0], i, m), seed=rnd.randrange(1, 1 << 30),
                             prog=dict(mode=a["mode"], dEn=a["dEn"], uEn=a["uEn"], offer=a["offer"], reply=a["reply"], steps=steps)))
@@ -568,7 +613,12 @@ def neg_floors(conc, files):
                 c["compressed_accepted" if '"res":"ok"' in line else "compressed_refused"] += 1
             elif '"e":"Handshake"' in line:
                 c["handshake_ok" if '"ok":true' in line else "handshake_failed"] += 1
-    for k in ("send_rsv1", "send_plain", "compressed_accepted", "compressed_refused", "handshake_ok", "handshake_failed"):
+            elif '"e":"Cls"' in line:
+                c[("implicit" if '"implicit":true' in line else "explicit") + "_close_of_open_message_" +
+                  ("rsv1" if '"rsv1":true' in line else "plain")] += 1
+    for k in ("send_rsv1", "send_plain", "compressed_accepted", "compressed_refused", "handshake_ok", "handshake_failed",
+              "implicit_close_of_open_message_rsv1", "implicit_close_of_open_message_plain",
+              "explicit_close_of_open_message_rsv1", "explicit_close_of_open_message_plain"):
         if c[k] == 0:
             raise core.Infra("coverage floor missed: no %s observation" % k)
     return dict(observations=dict(c), modes=dict(Counter(p["prog"]["mode"] for p in conc)))
@@ -578,7 +628,7 @@ def describe_c15(prog):
     p = prog["prog"]
     return dict(mode=p["mode"], Dialer_EnableCompression=p["dEn"], Upgrader_EnableCompression=p["uEn"],
                 offer=[text(x) for x in p["offer"]], reply=[text(x) for x in p["reply"]],
-                steps=[{k: v for k, v in st.items() if k in ("op", "side", "n") or (st["op"] == "feed" and k == "comp") or
+                steps=[{k: v for k, v in st.items() if k in ("op", "side") or (k == "n" and st["op"] in ("send", "feed", "wr")) or (st["op"] == "feed" and k == "comp") or
                         (st["op"] == "ewc" and k == "on") or (st["op"] == "scl" and k == "level")} for st in p["steps"]])
 
 
@@ -597,7 +647,10 @@ def c15(tier):
                           "bounds: only the program spaces named in the MC configs are explored"],
                       rule="abstract programs = initial states of MC_C15: pair: (Dialer.EnableCompression, Upgrader.EnableCompression) x toggle "
                            "scripts (EnableWriteCompression / SetCompressionLevel incl. invalid levels, on either side, between messages in both "
-                           "directions) followed by compressed probes; offer: client offers x Upgrader setting x scripts; reply: server replies "
+                           "directions) followed by compressed probes, plus one toggle INSIDE an open message (NextWriter; toggle before / after / "
+                           "between Writes; Close or implicit close by the next WriteMessage; with and without EnableWriteCompression(false) "
+                           "before); offer: client offers (incl. quoted-string parameter values with quoted-pairs / commas / "
+                           "permessage-deflate inside the quotes) x Upgrader setting x scripts; reply: server replies (same) "
                            "x Dialer setting x scripts; every program performs a handshake and at least one message (non-trivial); distinct by "
                            "abstract program; message sizes chosen by seed")
     return rc
